@@ -15,6 +15,7 @@ import (
 	"github.com/bluenviron/gomavlib/v3/pkg/message"
 
 	"verif/bx"
+	"verif/checks/c17/shadow"
 	"verif/gen/enumreg"
 	"verif/gm"
 	"verif/ref"
@@ -109,7 +110,7 @@ type MessageEnumBadWidth struct {
 func (*MessageEnumBadWidth) GetID() uint32 { return 914 }
 
 var malformed = []message.Message{&MessageNamedNoTag{}, &MessageNamedU8{}, &MessageNamedF32Array{}, &MessageNamedString{},
-	&MessagePointerField{}, &MessageStructField{}, &MessageEnumBadWidth{},&NoPrefixHeartbeat{}, &MessageBadFieldType{}, &MessageBadFieldBool{}, &MessageEnumNotUint64{},
+	&MessagePointerField{}, &MessageStructField{}, &MessageEnumBadWidth{}, &NoPrefixHeartbeat{}, &MessageBadFieldType{}, &MessageBadFieldBool{}, &MessageEnumNotUint64{},
 	&MessageBadMavenum{}, &MessageBadMavenumName{}, &MessageBadMavlen{}, &MessageSliceField{}}
 
 // MessageDupOfPing has the id of PING.
@@ -121,9 +122,9 @@ var pool = []message.Message{&common.MessageHeartbeat{}, &common.MessageSysStatu
 	&common.MessageParamSet{}, &common.MessageProtocolVersion{}, &common.MessageRequestDataStream{}}
 
 type ucase struct {
-	Subset  int    `json:"subset"`  // bitmask over the pool
-	Inject  string `json:"inject"`  // "" | dup:<pool index> | bad:<malformed index>
-	At      int    `json:"at"`      // position of the injected message
+	Subset int    `json:"subset"` // bitmask over the pool
+	Inject string `json:"inject"` // "" | dup:<pool index> | bad:<malformed index>
+	At     int    `json:"at"`     // position of the injected message
 }
 
 func evalUser(c ucase) string {
@@ -191,6 +192,45 @@ func main() {
 		golden[e.ID] = e
 	}
 	failS := func(class, key, d string) { r.Fail(class, key, map[string]string{"key": key}, d) }
+
+	// ---- same type name, other definition: a codec belongs to the Go type. One shadow type is
+	// initialised before any shipped dialect, the others after all of them (see below).
+	shadowCheck := func(m message.Message, wantOK bool) {
+		evals.Add(1)
+		name := fmt.Sprintf("%T", m)
+		rw := &dialect.ReadWriter{Dialect: &dialect.Dialect{Version: 3, Messages: []message.Message{m}}}
+		var err error
+		if p := bx.Catch(func() { err = rw.Initialize() }); p != "" {
+			failS("shadow", name, p)
+			return
+		}
+		if !wantOK {
+			if err == nil {
+				failS("shadow", name, "malformed struct "+name+" (it shares its type name with a shipped message) accepted by Initialize")
+			}
+			return
+		}
+		if err != nil {
+			failS("shadow", name, "valid user struct "+name+" (it shares its type name with a shipped message) rejected: "+err.Error())
+			return
+		}
+		def, derr := ref.DefFromStruct(reflect.TypeOf(m).Elem(), m.GetID())
+		if derr != nil {
+			bx.Fatalf("%v", derr)
+		}
+		mrw := rw.GetMessage(m.GetID())
+		if mrw == nil {
+			failS("shadow", name, "no codec for id of "+name)
+			return
+		}
+		if reflect.TypeOf(mrw.Message) != reflect.TypeOf(m) {
+			failS("shadow", name, fmt.Sprintf("the codec of %s decodes into %T", name, mrw.Message))
+		}
+		if got, want := mrw.CRCExtra(), def.CRCExtra(); got != want {
+			failS("shadow", name, fmt.Sprintf("CRC_EXTRA of %s is %d, its definition gives %d (the shipped message of the same name has another one)", name, got, want))
+		}
+	}
+	shadowCheck(&shadow.MessageParamSet{}, true)
 
 	// ---- per dialect: initialise, ids unique, lookups, sizes, golden
 	bx.ParDo(len(gm.Dialects), func(di int) {
@@ -295,9 +335,6 @@ func main() {
 			failS("identity", e.Dialect+"."+t.Name(), fmt.Sprintf("dialect %s lists %s under group %q but its Go type is declared in package %s: not the same type as %s.%s", e.Dialect, t.Name(), e.Group, pkg, e.Group, t.Name()))
 		}
 	}
-	if groupsSeen < 3000 {
-		r.Note(fmt.Sprintf("only %d dialect entries with include groups were found by the scan: identity is decided by (name, id) across dialects below", groupsSeen))
-	}
 	// independent of the comments: a message with the same name and id in two dialects is the
 	// very same Go type
 	type nk struct {
@@ -362,10 +399,15 @@ func main() {
 		bx.Fatalf("only %d constants scanned", len(enumreg.Consts))
 	}
 
+	shadowCheck(&shadow.MessageHeartbeat{}, true)
+	shadowCheck(&shadow.MessagePing{}, false)
+
 	// ---- user dialects
 	var ucases []ucase
 	for sub := 0; sub < 1<<uint(len(pool)); sub++ {
-		ucases = append(ucases, ucase{Subset: sub})
+		if sub != 0 { // (whether a dialect without messages is valid is not stated anywhere)
+			ucases = append(ucases, ucase{Subset: sub})
+		}
 		n := 0
 		for i := range pool {
 			if sub&(1<<uint(i)) != 0 {
@@ -393,7 +435,7 @@ func main() {
 		}
 	})
 	r.Assumption = []string{
-		"type identity of included messages is decided by (name, id) across dialects; group comments of dialect.go are an additional hint only when they name a shipped package",
+		"type identity of included messages is decided by (name, id) across dialects; the registry lists the messages of each dialect as written in its Messages list (go/ast), comments are not used",
 		"golden CRC_EXTRA: 222 double-sourced standard messages",
 	}
 	r.Finish(map[string]any{
